@@ -130,7 +130,8 @@ def declared_ranges():
     return out
 
 
-FACTORS = ['0.9', '1.1', '0.5', '2', 'min', 'max']
+# (the last factor gives a value with seven significant digits: more than any column of the report prints)
+FACTORS = ['0.9', '1.1', '0.5', '2', 'min', 'max', '1.0123457']
 
 
 def neighbour_tweak(cs, template, ranges):
@@ -164,7 +165,9 @@ def neighbour_tweak(cs, template, ranges):
             f = '1.1'
         else:
             return (name, f'{r[0] if f == "min" else r[1]:.6g}')
-    return (name, f'{v * float(f):.6g}')
+    return (name, f'{v * float(f):.7g}' if len(f) > 4 else f'{v * float(f):.6g}')
+
+
 GEO_TWEAKS = [
     ('Plant Lifetime', ['25', '35']),
     ('Ambient Temperature', ['10', '20']),
@@ -174,6 +177,12 @@ GEO_TWEAKS = [
     ('Inflation Rate', ['0.02', '0.03']),
     ('Injection Temperature', ['65', '75']),
     ('Production Flow Rate per Well', ['45', '55']),
+    # values with more significant digits than the report prints for them (the same quantity printed in two sections of the
+    # report, or printed and re-read, goes through two roundings)
+    ('Gradient 1', ['43.2175', '51.37254']),
+    ('Reservoir Depth', ['2.718282', '3.141593']),
+    ('Injection Temperature', ['63.33333']),
+    ('Production Flow Rate per Well', ['47.61905']),
     # optional behaviours switched on by extra lines
     ('Units:Bottom-hole temperature', ['degF', 'degK']),
     ('Units:Net Electricity Production', ['kW']),
@@ -184,7 +193,8 @@ GEO_TWEAKS = [
                                     '1\nNumber of Injection Wells, 1\nProduction Flow Rate per Well, 10']),
     # list-valued parameters: requests that differ only in the tail of a multi-valued line
     ('Number of Segments', ['2\nGradients, 50, 40\nThicknesses, 1.5, 1', '2\nGradients, 50, 25\nThicknesses, 1.5, 1',
-                            '2\nGradients, 50, 25\nThicknesses, 1.2, 1', '3\nGradients, 50, 40, 30\nThicknesses, 1, 0.5, 1']),
+                            '2\nGradients, 50, 25\nThicknesses, 1.2, 1', '3\nGradients, 50, 40, 30\nThicknesses, 1, 0.5, 1',
+                            '2\nGradients, 51.3725, 38.4145\nThicknesses, 1.23456, 1']),
 ]
 
 HIP_TWEAKS = [
